@@ -296,7 +296,14 @@ class SymDatetime(_dt.datetime):
         return SymDatetime(us, off)
 
     def isoformat(self, *a, **k):
-        raise Unsupported("isoformat is C code")
+        # C code: modelled as an opaque injective function of the (whole-second, naive) instant
+        if a or k or self.off is not None:
+            raise Unsupported("isoformat with arguments / of an aware datetime")
+        from .symstr import SymText
+
+        if not sym.B((self.us % US_PER_SEC) == 0):
+            raise Unsupported("isoformat of a datetime with microseconds")
+        return SymText([("iso", self.us)])
 
     def __repr__(self):
         return "SymDatetime(%r, %r)" % (self.us, self.off)
